@@ -64,6 +64,17 @@ Definition c17_eq_verdict_slack (extra : c17_dy) (prec emax : Z) (s : c17_cstyle
   else None.
 Definition c17_eq_verdict := c17_eq_verdict_slack (C17_Dy 0 0).
 
+(* documented defaults (float_cmp.hh): "an epsilon, which defaults to 8 times the machine epsilon ... for relative comparisons,
+   or simply 1e-6 for absolute comparisons"; machine epsilon = 2^(1-prec).  Judges the implementation's DefaultEpsilon values
+   independently of the literals re-read into Params_gen.v *)
+Definition c17_spec_default_eps_ok (prec : Z) (s : c17_cstyle) (v : c17_dy) : bool :=
+  match s with
+  | C17_Absolute =>
+    c17_dy_leb (c17_dy_abs (c17_dy_sub (c17_dy_mul v (c17_dy_of_Z 1000000)) (c17_dy_of_Z 1))) (c17_dy_pow2 (-20))
+    || (c17_dy_eqb v (c17_dy_pow2 (1 - prec)) && c17_dy_leb (c17_dy_pow2 (-20)) (c17_dy_pow2 (1 - prec)))
+  | _ => c17_dy_eqb v (c17_dy_pow2 (4 - prec))
+  end.
+
 (* vectors: conjunction over components (and equal length) *)
 Definition c17_spec_veq {A : Type} (eqc : A -> A -> bool) (a b : list A) : bool :=
   Nat.eqb (length a) (length b) && forallb (fun p => eqc (fst p) (snd p)) (combine a b).
